@@ -1,4 +1,4 @@
-import ScVerif.C16.RoundedLemmas
+import ScVerif.C16.RoundedF
 /-!
 # C16 — property theorems about the tolerance comparers IN ROUNDED ARITHMETIC (round 6)
 
@@ -89,6 +89,42 @@ theorem C16_durationP_rounded (rnd : Rat → Rat) (h : SignSymmetric rnd) (p : R
     rw [e, h.zero, h0, h.zero, e2]
     exact h.nonneg _ (Rat.mul_nonneg hp (Rat.abs_nonneg (x := rnd xd)))
 
+/-- The acceptance band of `DurationValueWithinP` in rounded arithmetic, for every monotone sign-symmetric rounding,
+every p and all int64 durations: accepted iff 100 times the (rounded) distance of the converted durations is at
+most p times the smaller converted magnitude, or both sides of that comparison round to the same number.  On
+durations float64 represents exactly (conversions and difference exact: all |d| ≤ 2^52 ns) that is: within p
+percent of each other over the reals (`C16_durationP`'s band), or the two products round to the same float. -/
+theorem C16_durationP_rounded_band (rnd : Rat → Rat) (h : Rounding rnd) (p : Rat) (xd yd : Int) :
+    (durWithinPR rnd p xd yd = true ↔
+      ((rnd (rnd xd - rnd yd)).abs * 100 ≤ p * min (rnd xd).abs (rnd yd).abs ∨
+       rnd ((rnd (rnd xd - rnd yd)).abs * 100) = rnd (p * min (rnd xd).abs (rnd yd).abs))) ∧
+    (rnd xd = xd → rnd yd = yd → rnd ((xd : Rat) - (yd : Rat)) = (xd : Rat) - (yd : Rat) →
+      (durWithinPR rnd p xd yd = true ↔
+        (((xd : Rat) - (yd : Rat)).abs * 100 ≤ p * minAbs xd yd ∨
+         rnd (((xd : Rat) - (yd : Rat)).abs * 100) = rnd (p * minAbs xd yd)))) := by
+  have hiff : durWithinPR rnd p xd yd = true ↔
+      ((rnd (rnd xd - rnd yd)).abs * 100 ≤ p * min (rnd xd).abs (rnd yd).abs ∨
+       rnd ((rnd (rnd xd - rnd yd)).abs * 100) = rnd (p * min (rnd xd).abs (rnd yd).abs)) := by
+    unfold durWithinPR
+    simp only [decide_eq_true_eq]
+    exact h.le_iff _ _
+  refine ⟨hiff, ?_⟩
+  intro hx hy hd
+  rw [hiff, hx, hy, hd, minAbs_eq_min]
+
+/-- The same in binary64 itself (no hypothesis on the rounding). -/
+theorem C16_durationP_binary64 (p : Rat) (xd yd : Int)
+    (hx : rne64 xd = xd) (hy : rne64 yd = yd) (hd : rne64 ((xd : Rat) - (yd : Rat)) = (xd : Rat) - (yd : Rat)) :
+    durWithinPR rne64 p xd yd = true ↔
+      (((xd : Rat) - (yd : Rat)).abs * 100 ≤ p * minAbs xd yd ∨
+       rne64 (((xd : Rat) - (yd : Rat)).abs * 100) = rne64 (p * minAbs xd yd)) :=
+  (C16_durationP_rounded_band rne64 rne64_rounding p xd yd).2 hx hy hd
+
+/-- The exactness hypotheses are satisfiable (and fail beyond 2^53: that is where the conversions round). -/
+example : rne64 ((4503599627370496 : Int) : Rat) = ((4503599627370496 : Int) : Rat) ∧
+    rne64 ((9007199254740993 : Int) : Rat) ≠ ((9007199254740993 : Int) : Rat) := by
+  decide +kernel
+
 /-- With exact arithmetic (`rnd = id`) it is the comparer of `C16_durationP`. -/
 theorem C16_durationP_rounded_exact (p : Rat) (z : Bool) (xd yd : Int) :
     durWithinPR id p xd yd = durWithinPD (.fin p z) xd yd := by
@@ -131,6 +167,69 @@ theorem C16_tolerance_binary64 (fr mg x y p : Rat) (xd yd : Int) :
 example : rne64 0 = 0 ∧ rne64 (1 / 2) = 1 / 2 ∧
     rne64 (3602879701896397 / 36028797018963968) = 3602879701896397 / 36028797018963968 := by
   decide +kernel
+
+/-! ### The comparer as a whole, overflow included -/
+
+/-- `FloatValueApprox(fraction, margin)` in rounded arithmetic WITH overflow (a result whose rounded magnitude
+exceeds `lim` becomes ±Inf), on all float values — NaN, ±Inf, finite —: symmetric for every fraction and margin
+(NaN and ±Inf included) under every sign-symmetric rounding; reflexive for finite tolerances with a non-negative
+margin or fraction under every sign-symmetric, sign-preserving rounding. -/
+theorem C16_float_value_approx_rounded (rnd : Rat → Rat) (h : SignSymmetric rnd) (lim : Rat) (hlim : 0 ≤ lim)
+    (fraction margin fx fy : F) :
+    floatValueApproxR rnd lim fraction margin (.sc (.float fx)) (.sc (.float fy)) =
+      floatValueApproxR rnd lim fraction margin (.sc (.float fy)) (.sc (.float fx)) ∧
+    (∀ fr mg a b, fraction = .fin fr a → margin = .fin mg b → (0 ≤ mg ∨ 0 ≤ fr) →
+      floatValueApproxR rnd lim fraction margin (.sc (.float fx)) (.sc (.float fx)) = (true, true)) := by
+  refine ⟨floatValueApproxR_symm rnd h.odd lim fraction margin fx fy, ?_⟩
+  intro fr mg a b hf hm hp
+  subst hf hm
+  exact floatValueApproxR_refl rnd h lim hlim fr mg a b fx hp
+
+/-- Where no intermediate result overflows, the comparer's finite branch is `floatApproxR` — the function the
+"accepts exactly" theorem is about. -/
+theorem C16_float_approx_rounded_no_overflow (rnd : Rat → Rat) (lim fr mg x y : Rat) (a b c d : Bool)
+    (h1 : (rnd (x - y)).abs ≤ lim) (h2 : (rnd (fr * min x.abs y.abs)).abs ≤ lim) :
+    floatValueApproxR rnd lim (.fin fr a) (.fin mg b) (.sc (.float (.fin x c))) (.sc (.float (.fin y d))) =
+      (floatApproxR rnd fr mg x y, true) := by
+  simp [floatValueApproxR, F.isNaN, F.isFinite, floatApproxFR_fin rnd lim fr mg x y a b c d h1 h2]
+
+/-- Binary64 (`rne64`, overflow beyond `maxFloat64`), no hypothesis: the comparer is symmetric on ALL float64
+values for all tolerances, and reflexive for finite tolerances with a non-negative margin or fraction. -/
+theorem C16_float_value_approx_binary64 (fraction margin fx fy : F) :
+    floatValueApproxR rne64 maxFloat64 fraction margin (.sc (.float fx)) (.sc (.float fy)) =
+      floatValueApproxR rne64 maxFloat64 fraction margin (.sc (.float fy)) (.sc (.float fx)) ∧
+    (∀ fr mg a b, fraction = .fin fr a → margin = .fin mg b → (0 ≤ mg ∨ 0 ≤ fr) →
+      floatValueApproxR rne64 maxFloat64 fraction margin (.sc (.float fx)) (.sc (.float fx)) = (true, true)) :=
+  C16_float_value_approx_rounded rne64 rne64_signSymmetric maxFloat64 (by decide +kernel) fraction margin fx fy
+
+/-- Overflow is reachable and modelled: the largest float and its negation are an infinite float64 distance apart,
+within no finite margin — and within a fraction whose product overflows too (`+Inf <= +Inf`). -/
+example :
+    floatValueApproxR rne64 maxFloat64 (.fin 0 false) (.fin maxFloat64 false)
+      (.sc (.float (.fin maxFloat64 false))) (.sc (.float (.fin (-maxFloat64) false))) = (false, true) ∧
+    floatValueApproxR rne64 maxFloat64 (.fin 4 false) (.fin 0 false)
+      (.sc (.float (.fin maxFloat64 false))) (.sc (.float (.fin (-maxFloat64) false))) = (true, true) := by
+  decide +kernel
+
+/-! ### Own kind only, in rounded arithmetic too -/
+
+/-- The rounded comparers claim values of their own kind only (on anything else `ok = false`: the default
+comparison decides), and on two valid Durations `DurationValueWithinP` is the rounded arithmetic on
+`AsDuration()` of each. -/
+theorem C16_own_kind_only_rounded (rnd : Rat → Rat) (lim : Rat) (fr mg p : F) (x y : Val) :
+    ((∀ fx, x ≠ .sc (.float fx)) → (floatValueApproxR rnd lim fr mg x y).2 = false) ∧
+    (x.typeName ≠ durName → y.typeName ≠ durName → (durationValueWithinPR rnd p x y).2 = false) ∧
+    (∀ q z fx fy ux uy, durationValueWithinPR rnd (.fin q z) (.msg durName true fx ux) (.msg durName true fy uy) =
+      (durWithinPR rnd q (toDurationNs fx) (toDurationNs fy), true)) := by
+  refine ⟨?_, ?_, ?_⟩
+  · intro h
+    cases x with
+    | msg => simp [floatValueApproxR]
+    | sc s => cases s <;> simp_all [floatValueApproxR]
+  · intro hx hy
+    cases x <;> cases y <;> simp_all [durationValueWithinPR, cmpDuration, Val.typeName]
+  · intro q z fx fy ux uy
+    simp [durationValueWithinPR, cmpDuration]
 
 /-! ### Non-vacuity -/
 
